@@ -29,6 +29,7 @@ RULE = (
     " cli_digest: the command-line tool with --proteins and non-default --decoy_prefix / --missed_cleavages / --min_length / --clip_nterm_methionine on databases where the option matters (initiator methionines, peptides spanning a missed cleavage), judged against read_fasta() with the same options."
     " Every sixth direct table is sparse: one peptide per occurring protein group."
     " target_only_reuse: target-only FASTA, one Proteins object serving three peptide tables in turn; each result equals that of a freshly read object, has one entry per pair and only existing groups."
+    " A third of the file tables carry PeptideGroup (and ModifiedPeptide) level columns besides proteins."
 )
 ASSUMPTIONS = [
     "token -> group lookup uses the real Proteins.peptide_map (C16)",
@@ -218,6 +219,15 @@ def run_files(case):
         proteins = mokapot.read_fasta(str(fa), missed_cleavages=0, min_length=6, decoy_prefix=db["prefix"])
         tab = prot.psm_table_for_db(rng, db, n_spectra=int(rng.integers(500, 900)), styles=("plain", "mod_sq", "flank", "mod_par", "mod_two", "mod_flank"),
                                     unknown_frac=0.005, sep=1.0)
+        if case["index"] % 3 == 1:
+            # further roll-up levels between peptides and proteins (a peptide group bundles several peptides): the protein
+            # level must still be built from the peptide level
+            toks_ = tab["truth"]["token"].values
+            pos_ = list(tab["df"].columns).index("Proteins")
+            tab["df"].insert(pos_, "PeptideGroup", [("G" if l_ == 1 else "D") + t_[:2] for t_, l_ in zip(toks_, tab["df"]["Label"].values)])
+            if case["index"] % 2:
+                tab["df"].insert(pos_, "ModifiedPeptide", tab["df"]["Peptide"].values)
+            res.count("tables_with_extra_levels")
         path = psm.write_parquet(tab, d / "t.parquet", row_group_size=101) if case["fmt"] == "parquet" else psm.write_pin(tab, d / "t.pin")
         scores = (tab["df"]["info0"].values + 0.5 * tab["df"]["info1"].values).astype(float)
         ds = pipeline.read_datasets([path])
